@@ -238,8 +238,9 @@ pub fn run_case(tree: &str, ops: &[String]) -> String {
 }
 
 // ------------------------------------------------------------------------------------------ generators
+thread_local! { static SHAPE: std::cell::Cell<u8> = std::cell::Cell::new(0); }
 fn gen_leaf(rng: &mut Rng, data: &[u8]) -> T {
-    match rng.below(8) {
+    match if SHAPE.with(|m| m.get()) == 1 && rng.chance(2, 3) { 7 } else { rng.below(8) } {
         0 => T::S(data.to_vec()),
         1 => T::B(rng.below(9) as usize, data.to_vec()),
         2 => T::M(rng.below(5) as usize, data.to_vec()),
@@ -249,7 +250,8 @@ fn gen_leaf(rng: &mut Rng, data: &[u8]) -> T {
         4 => { if data.is_empty() { T::D(vec![], vec![]) } else { let k = rng.range(1, data.len() as u64) as usize; T::D(data[..k].to_vec(), data[k..].to_vec()) } }
         _ => { // foreign multi-chunk buf with empty chunks sprinkled in
             let mut cs = vec![]; let mut i = 0;
-            while i < data.len() { if rng.chance(1, 5) { cs.push(vec![]) } let k = rng.range(1, (data.len() - i).min(4) as u64) as usize; cs.push(data[i..i + k].to_vec()); i += k; }
+            let maxc = match SHAPE.with(|m| m.get()) { 1 => 2, 2 => 700, _ => 4 };     // shape 1: many tiny chunks (more than the 16 slots adapters use internally); shape 2: large
+            while i < data.len() { if rng.chance(1, 5) { cs.push(vec![]) } let k = rng.range(1, (data.len() - i).min(maxc) as u64) as usize; cs.push(data[i..i + k].to_vec()); i += k; }
             if rng.chance(1, 4) { cs.push(vec![]) }
             T::G(cs) }
     }
@@ -257,8 +259,29 @@ fn gen_leaf(rng: &mut Rng, data: &[u8]) -> T {
 fn pick_limit(rng: &mut Rng, len: usize) -> usize {
     match rng.below(7) { 0 => 0, 1 => len, 2 => len + 1 + rng.below(3) as usize, 3 => usize::MAX, 4 => usize::MAX - rng.below(3) as usize, _ => rng.below(len as u64 + 1) as usize }
 }
+/// a left- or right-nested chain of `k` leaves whose denotation is `data` (more slices than the 16 an adapter's scratch array holds)
+fn gen_long_chain(rng: &mut Rng, data: &[u8], k: usize) -> T {
+    let mut cuts: Vec<usize> = (0..k.saturating_sub(1)).map(|_| rng.below(data.len() as u64 + 1) as usize).collect(); cuts.sort();
+    let mut pieces = vec![]; let mut prev = 0; for c in cuts.iter().chain(std::iter::once(&data.len())) { pieces.push(&data[prev..*c]); prev = *c; }
+    let leaf = |rng: &mut Rng, d: &[u8]| -> T { match rng.below(4) { 0 => T::S(d.to_vec()), 1 => T::B(rng.below(3) as usize, d.to_vec()), 2 => T::M(rng.below(3) as usize, d.to_vec()), _ => if d.len() >= 2 { T::D(d[..1].to_vec(), d[1..].to_vec()) } else { T::S(d.to_vec()) } } };
+    let left = rng.chance(1, 2);
+    let mut it: Vec<T> = pieces.iter().map(|d| leaf(rng, d)).collect();
+    if left { let mut acc = it.remove(0); for x in it { acc = T::C(Box::new(T::F(Box::new(acc))), Box::new(T::F(Box::new(x)))); } acc }
+    else { let mut acc = it.pop().unwrap(); while let Some(x) = it.pop() { acc = T::C(Box::new(T::F(Box::new(x))), Box::new(T::F(Box::new(acc)))); } acc }
+}
 /// a tree of the given depth whose denotation is `data` (Take nodes may hide extra bytes behind the limit)
 fn gen_tree(rng: &mut Rng, depth: u32, data: &[u8]) -> T {
+    if SHAPE.with(|m| m.get()) == 1 && depth >= 1 && data.len() >= 17 && rng.chance(1, 2) {
+        // Take over (or Chain with) a long chain
+        let k = rng.range(15, 40) as usize;
+        return match rng.below(4) {
+            0 => gen_long_chain(rng, data, k),
+            1 => { let extra = rng.below(6) as usize; let mut v = data.to_vec(); v.extend(rng.bytes(extra)); T::Tk(data.len(), Box::new(T::F(Box::new(gen_long_chain(rng, &v, k))))) }
+            2 => { let cut = rng.below(data.len() as u64 + 1) as usize; let extra = rng.below(6) as usize; let mut v = data[..cut].to_vec(); v.extend(rng.bytes(extra));
+                   T::C(Box::new(T::F(Box::new(T::Tk(cut, Box::new(T::F(Box::new(gen_long_chain(rng, &v, k)))))))), Box::new(T::F(Box::new(gen_tree(rng, depth - 1, &data[cut..]))))) }
+            _ => T::Tk(*rng.pick(&[data.len(), data.len() + 3, usize::MAX]), Box::new(T::F(Box::new(gen_long_chain(rng, data, k))))),
+        };
+    }
     if depth == 0 || rng.chance(1, 6) { return gen_leaf(rng, data); }
     match rng.below(9) {
         0..=3 => { let k = rng.below(data.len() as u64 + 1) as usize; let (a, b) = (gen_tree(rng, depth - 1, &data[..k]), gen_tree(rng, depth - 1, &data[k..])); T::C(Box::new(T::F(Box::new(a))), Box::new(T::F(Box::new(b)))) }
@@ -283,7 +306,7 @@ fn gen_ops(rng: &mut Rng, t: &T, len: usize, nops: usize) -> Vec<String> {
         let k_in = |rng: &mut Rng, left: usize| -> usize { match rng.below(16) { 0 | 1 => 0, 2 | 3 => left, 4 => left + 1, 5 => left + 2 + rng.below(3) as usize, _ => rng.below(left as u64 + 1) as usize } };
         let op = match rng.below(22) {
             0 => "rem".to_string(), 1 => "chunk".into(), 2 => "has".into(),
-            3 | 4 => format!("cv:{}", *rng.pick(&[0usize, 1, 2, 3, 4, 17, 20])),
+            3 | 4 => format!("cv:{}", *rng.pick(&[0usize, 1, 2, 3, 4, 15, 16, 17, 20, 33, 64])),
             5 | 6 => { let k = k_in(rng, left); left = left.saturating_sub(k); format!("adv:{}", k) }
             7 => { let k = k_in(rng, left); left = left.saturating_sub(k); format!("cts:{}", k) }
             8 => { let k = k_in(rng, left); if k <= left { left -= k } format!("tcs:{}", k) }
@@ -318,7 +341,10 @@ fn patterned(rng: &mut Rng, n: usize) -> Vec<u8> {
 pub fn buf_random(out: &mut dyn Write, seed: u64, n: usize, maxdepth: u32) {
     let mut rng = Rng::new(seed ^ 0xb0f);
     for _ in 0..n {
-        let len = match rng.below(10) { 0 => 0, 1 | 2 | 3 => rng.range(13, 40), _ => rng.range(1, 12) } as usize;
+        // one case in six has many tiny chunks, one in ten is large (1 KiB .. 5 KiB; sizes at which buffers could switch strategy)
+        let shape = match rng.below(30) { 0..=4 => 1u8, 5..=7 => 2, _ => 0 };
+        SHAPE.with(|m| m.set(shape));
+        let len = match shape { 1 => rng.range(18, 70), 2 => *rng.pick(&[1023u64, 1024, 1025, 1100, 2048, 3000, 4096, 4097, 5000]), _ => match rng.below(10) { 0 => 0, 1 | 2 | 3 => rng.range(13, 40), _ => rng.range(1, 12) } } as usize;
         let data = patterned(&mut rng, len);
         let depth = rng.below(maxdepth as u64 + 1) as u32;
         let mut t = gen_tree(&mut rng, depth, &data);
